@@ -13,14 +13,14 @@
 (*             [p, p+1) returns the entry whose key contains p, i.e.       *)
 (*             origin(p) = (src, p - rb + ob) of the segment pushed there. *)
 (*                                                                         *)
-(* Checked by checks/c03.py (vlib.apalache_check; the step and the          *)
+(* Checked by checks/c03.py (vlib.apalache_check; the step and the         *)
 (* refutation in the thorough tier only):                                  *)
 (*   Init => IndInv                      --init=Init    --inv=IndInv   --length=0 *)
 (*   IndInv /\ Next => IndInv'           --init=IndInit --inv=IndInv   --length=1 *)
 (*   IndInv => LookupOk                  --init=IndInit --inv=LookupOk --length=0 *)
 (* IndInit draws a map of up to MaxEntries entries with arbitrary integer  *)
-(* fields, Merge another tiled map of up to MaxOther entries             *)
-(* fields (Gen), so the step is proved for every such map, not for the     *)
+(* fields (Gen), Merge draws another tiled map of up to MaxOther entries,  *)
+(* so the step is proved for every such map, not for the                   *)
 (* reachable ones only.  The refutation: with SkipEmpty = FALSE (an empty  *)
 (* push inserts an entry - defect D8) the step IndInv => IndInv' fails.    *)
 (***************************************************************************)
